@@ -62,6 +62,13 @@ type c02Call struct {
 	status    int
 }
 
+type c02Withheld struct {
+	cl    *Client
+	it    *ClientItem
+	j, id int
+	state int
+}
+
 type c02CopyRT struct{ inner http.RoundTripper }
 
 func (rt c02CopyRT) RoundTrip(req *http.Request) (*http.Response, error) {
@@ -305,6 +312,7 @@ func runC02(k *kernel.K) {
 			}, func() { c.Close() }, nil)
 		})
 	}
+	var withheld []*c02Withheld
 	nconn := w.Range(1, 3)
 	var clients []*Client
 	connPlans := map[int][]*c02Plan{}
@@ -351,7 +359,15 @@ func runC02(k *kernel.K) {
 			}
 			plans[id] = p
 			connPlans[ci] = append(connPlans[ci], p)
-			c.Add(p.spec)
+			it := c.Add(p.spec)
+			if !isConnect && p.reqBeh == "skip" && p.resBeh != "hijack" && len(p.spec.Body) >= 2 && p.spec.Framing == "cl" && !p.spec.Pipelined && w.Chance(1, 2) {
+				// the client sends only part of its body and keeps the rest until it has the answer
+				// (which a skipped round trip produces without reading the body): the exchange has
+				// ended then, whatever the proxy still does with the connection
+				it.SplitAt = len(it.Raw) - 1 - w.Draw(len(p.spec.Body)-1)
+				withheld = append(withheld, &c02Withheld{cl: c, it: it, j: j, id: id})
+				k.Probe("body_tail_withheld_until_answered")
+			}
 			k.Note("c%d #%d %s %s req=%s(park %v) res=%s(park %v) unreachable=%v", ci, id, p.spec.Method, p.spec.Target(), p.reqBeh, p.parkReq, p.resBeh, p.parkRes, p.unreachable)
 			id++
 			if p.reqBeh == "hijack" || p.resBeh == "hijack" {
@@ -359,6 +375,28 @@ func runC02(k *kernel.K) {
 			}
 		}
 	}
+	k.AddInvariant(func() {
+		for _, wh := range withheld {
+			switch {
+			case wh.state == 0 && wh.it.partSent && !wh.it.Sent:
+				wh.cl.Hold, wh.state = true, 1
+			case wh.state == 1 && len(wh.cl.P.Final()) > wh.j:
+				wh.state = 2
+				wh.cl.Hold = false
+				mu.Lock()
+				var rq *http.Request
+				for _, c := range calls {
+					if c.phase == "req" && c.id == wh.id {
+						rq = c.req
+					}
+				}
+				mu.Unlock()
+				if rq != nil && martian.NewContext(rq) != nil {
+					k.Fail("C02.ctx_released", map[string]string{"when": "answered_body_tail_outstanding"}, "exchange #%d (skipped round trip): the client has its complete response and still owes the proxy the last bytes of its request body; a context is still retrievable for the request", wh.id)
+				}
+			}
+		}
+	})
 	k.StateFn = func() string {
 		var sb strings.Builder
 		sb.WriteString(n.Fingerprint())
